@@ -268,6 +268,8 @@ def run(chk):
                 if nbad <= 3:
                     chk.broken.append("correspondence C01 (1-D kernel, bit-exact) on `%s`: model req=%s median=%s impl req=%x median=%x; recon equal: %s" % (
                         c[:110], md.get("req"), md.get("median"), info["req"], info["median"], d.get("recon") == md.get("recon")))
+            if md.get("ctxok") == "0" and not extreme:
+                chk.broken.append("a compared 2-D/3-D run has a context outside the hypothesis of the unconditional lock-step theorems (intervals, 1/e) on `%s`" % c[:110])
             if (md.get("okexact") == "0" or md.get("mirror") == "0") and not extreme:
                 # the model itself found an element whose exact storage leaves the bound, or a decoder/encoder mismatch:
                 # a counterexample to the checked theorems' premises; listed extreme-input classes excepted
